@@ -240,6 +240,10 @@ class Analysis:
         """Refine `fact` on the true / false edge of `test`.  None = infeasible edge."""
         return [fact], [fact]
 
+    def for_exhausted(self, node: "ForIter", fact: Fact) -> Iterable[Fact]:
+        """Fact(s) on the edge that leaves a `for` loop because its iterator is exhausted (default: unchanged)."""
+        return [fact]
+
     def with_exit(self, node: WithExit, fact: Fact) -> Iterable[tuple[str, str | None, Fact]]:
         """What happens when the body of `with` leaves with outcome (node.kind, node.token): default pass-through."""
         return [(node.kind, node.token, fact)]
@@ -292,6 +296,7 @@ class Interp:
         self.atoms_walked = 0
         self.stmts_walked = 0
         self._inline_stack: list = []
+        self.inline_args: list = []
         self._refine_depth = 0
         self.inlined: set[str] = set()
         analysis.fn = fn
@@ -358,12 +363,14 @@ class Interp:
             params = params[1:]
         given = list(call.args) + [k.value for k in call.keywords]
         names = params[: len(call.args)] + [k.arg for k in call.keywords]
-        for pn, av in zip(names, given):
-            if isinstance(av, ast.Constant):
-                continue
-            if isinstance(av, ast.Name) and av.id == pn:
-                continue
-            return None  # the analyses are name-based: an argument that is not its parameter's namesake would be lost inside the helper
+        if not getattr(a, "inline_any_args", False):
+            for pn, av in zip(names, given):
+                if isinstance(av, ast.Constant):
+                    continue
+                if isinstance(av, ast.Name) and av.id == pn:
+                    continue
+                return None  # the analyses are name-based: an argument that is not its parameter's namesake would be lost inside the helper
+        self._pending_inline_args = dict(zip(names, given))
         return g
 
     def _awaited_call(self, call: ast.Call) -> bool:
@@ -372,6 +379,7 @@ class Interp:
     def _exec_inline(self, node: Any, g: FunctionInfo, facts: FactMap, cond: bool) -> Out:
         saved_fn, saved_afn, saved_ctx = self.fn, self.a.fn, self.ctx
         self._inline_stack.append(g)
+        self.inline_args.append(getattr(self, "_pending_inline_args", {}) or {})  # parameter -> argument expression of this inlined call
         self.fn = g
         self.a.fn = g
         self.ctx = Ctx(handler_tokens=list(saved_ctx.handler_tokens), with_stack=list(saved_ctx.with_stack), loop_depth=0, try_stack=list(saved_ctx.try_stack), stmt_stack=list(saved_ctx.stmt_stack))
@@ -379,6 +387,7 @@ class Interp:
             r = self.exec_block(g.node.body, dict(facts))
         finally:
             self._inline_stack.pop()
+            self.inline_args.pop()
             self.fn, self.a.fn, self.ctx = saved_fn, saved_afn, saved_ctx
         out = Out()
         out.merge_abrupt(r)
@@ -597,6 +606,25 @@ class Interp:
                 vals = assignments(self.a.fn).get(test.id, [])
             except Exception:  # noqa: BLE001
                 vals = []
+            if len(vals) == 1 and isinstance(vals[0], (ast.Await, ast.Call)) and getattr(self.a, "inline_helpers", False) and self._refine_depth < 3:
+                # `flag = [await] self._helper()` where the private helper ends in its only `return <condition>`: the helper was
+                # interpreted in place when it was called, so the flag is read as that condition
+                try:
+                    from .norm import private_helper
+                    call = vals[0].value if isinstance(vals[0], ast.Await) else vals[0]
+                    g = private_helper(self.a.fn, call) if isinstance(call, ast.Call) else None
+                except Exception:  # noqa: BLE001
+                    g = None
+                if g is not None and not isinstance(g.node, ast.Lambda):
+                    from .db import own_nodes as _own
+                    rets = [r for r in _own(g.node) if isinstance(r, ast.Return)]
+                    if len(rets) == 1 and rets[0] is g.node.body[-1] and rets[0].value is not None and (_boolean_shaped(rets[0].value) or isinstance(rets[0].value, ast.Call)) \
+                            and not any(isinstance(x, (ast.Await, ast.Yield, ast.YieldFrom, ast.NamedExpr)) for x in ast.walk(rets[0].value)):
+                        self._refine_depth += 1
+                        try:
+                            return self._refine(rets[0].value, facts)
+                        finally:
+                            self._refine_depth -= 1
             if len(vals) == 1 and _boolean_shaped(vals[0]) and not any(isinstance(x, (ast.Await, ast.Yield, ast.YieldFrom, ast.NamedExpr)) for x in ast.walk(vals[0])) \
                     and not any(isinstance(x, ast.Name) and x.id == test.id for x in ast.walk(vals[0])) and self._refine_depth < 3:
                 self._refine_depth += 1
@@ -624,6 +652,14 @@ class Interp:
                         return self._refine(expr, facts)
                     finally:
                         self._inline_stack.pop()
+        if self.inline_args and isinstance(test, ast.Compare) and len(test.ops) == 1 and isinstance(test.ops[0], (ast.Is, ast.IsNot)) and isinstance(test.left, ast.Name) \
+                and isinstance(test.comparators[0], ast.Constant) and test.comparators[0].value is None and test.left.id in self.inline_args[-1]:
+            # `<param> is None` inside a helper interpreted in place: decided when the argument is a literal / a lambda / a bound method
+            arg = self.inline_args[-1][test.left.id]
+            is_none = True if (isinstance(arg, ast.Constant) and arg.value is None) else (False if isinstance(arg, (ast.Constant, ast.Lambda, ast.Attribute, ast.Call, ast.JoinedStr)) else None)
+            if is_none is not None:
+                truth = is_none if isinstance(test.ops[0], ast.Is) else not is_none
+                return (list(facts), []) if truth else ([], list(facts))
         ts: list = []
         fs: list = []
         for fact in facts:
@@ -688,7 +724,9 @@ class Interp:
             step = self.exec_atom(it, pending)
             out.merge_abrupt(step)
             # the iterator may be exhausted (-> orelse) or deliver an item (-> body)
-            fm_merge(exits, pending)
+            for f_, tr_ in pending.items():
+                for f2_ in self.a.for_exhausted(it, f_):
+                    fm_add(exits, f2_, tr_)
             body = self.exec_block(st.body, step.normal) if step.normal else Out()
             fm_merge(out.ret, body.ret)
             for tok, m in body.exc.items():
@@ -814,7 +852,22 @@ class Interp:
             body = self._with(st, enter.normal, is_async, idx + 1)
         finally:
             self.ctx.with_stack.pop()
-        for kind, tok, fmap in body.kinds():
+        outcomes = body.kinds()
+        if getattr(self.a, "model_suppress", True) and isinstance(item.context_expr, ast.Call) and (dotted(item.context_expr.func) or "").split(".")[-1] == "suppress" and item.context_expr.args:
+            # `with contextlib.suppress(X, ...)`: the same as `try: ... except (X, ...): pass` for every analysis
+            classes = self.a.handler_types(self.fn, ast.Tuple(elts=list(item.context_expr.args), ctx=ast.Load()))
+            conv = []
+            for kind, tok, fmap in outcomes:
+                if kind == "exc" and tok is not None:
+                    m = self.a.lattice.match(classes, tok, self.a.tokens)
+                    if m == "must":
+                        conv.append(("normal", None, fmap))
+                        continue
+                    if m == "may":
+                        conv.append(("normal", None, fmap))
+                conv.append((kind, tok, fmap))
+            outcomes = conv
+        for kind, tok, fmap in outcomes:
             wx = WithExit(item, st, is_async, kind, tok)
             line = wx.lineno
             for fact, tr in fmap.items():
